@@ -4,7 +4,7 @@ import os
 import numpy as np
 from hypothesis import strategies as st
 
-from .. import codec, conv, env, files, gen, sgy, sources
+from .. import codec, conv, env, files, gen, sgy, sources, spec
 from .. import known
 from ..core import Violation
 
@@ -146,10 +146,13 @@ def extra_reference(path, name):
     from seismic_zfp.read import SgzReader
     import re
     m = re.match(r"get_tracefield_values\((\d+)\)", name)
+    h = re.match(r"gen_trace_header\((\d+)\)", name)
     try:
         with SgzReader(path) as r:
             if m:
                 return ("ok", np.array(r.get_tracefield_values(int(m.group(1)))))
+            if h:
+                return ("ok", dict(r.gen_trace_header(int(h.group(1)))))
     except Exception as e:
         return ("exc", e)
     return ("exc", KeyError(name))
@@ -158,7 +161,7 @@ def extra_reference(path, name):
 READER_FORMS = ["str", "str", "path", "raw", "str", "nofd", "str", "buffered"]
 
 
-def results_on(path, preload=False, form="str"):
+def results_on(path, preload=False, form="str", extra_traces=()):
     """form: how the file is handed to the reader -- named (str, pathlib.Path), an unbuffered raw handle
     (open(p, 'rb', buffering=0)), a buffered handle, or a file-like object without an OS descriptor."""
     from seismic_zfp.read import SgzReader
@@ -183,7 +186,11 @@ def results_on(path, preload=False, form="str"):
             fh.close()
         return None, e
     try:
-        for name, thunk in fixed_ops(r):
+        ops_ = fixed_ops(r)
+        for t in extra_traces:
+            if 0 <= t < r.tracecount:
+                ops_.append((f"gen_trace_header({t})", lambda t=t: dict(r.gen_trace_header(t))))
+        for name, thunk in ops_:
             try:
                 res[name] = ("ok", thunk())
             except Exception as e:
@@ -235,11 +242,11 @@ def check_images(case, ctx, writes, final_path, d):
         # inside a write are thinned to every 8th write after the first 12)
         if k < len(writes) and (k < 12 or k % 8 == 0 or k >= len(writes) - 3):
             n = len(writes[k][1])
-            for p in sorted({1, n // 2, n - 1}):
+            for p in sorted({1, 2, n // 2, n // 2 + 2, n - 2, n - 1} if n <= 4096 else {1, n // 2, n - 1}):    # (every residue modulo 4 inside small writes)
                 if 0 < p < n:
                     points.append(("inside", k, p))
     lengths = set()
-    for b in range(0, len(final) + 4096, 4096):
+    for b in range(0, len(final) + 4096, 4096 if not case.get("coarse") else 2 ** 20 + 4096):
         lengths |= {b - 1, b, b + 1}
     stride = case.get("stride", 997)
     lengths |= set(range(0, len(final), stride))
@@ -247,6 +254,8 @@ def check_images(case, ctx, writes, final_path, d):
     for L in sorted(x for x in lengths if 0 <= x < len(final)):
         points.append(("length", L, None))
     only = case.get("only_point")
+    fspec = spec.SgzSpec(final)
+    structured = (not fspec.is_2d) and fspec.tracecount == fspec.n_il * fspec.n_xl
     p = os.path.join(d, "partial.sgz")
     n_eval = 0
     for pi, pt in enumerate(points):
@@ -264,7 +273,14 @@ def check_images(case, ctx, writes, final_path, d):
         ctx.mark_current(case)
         form = case["point_form"] if only is not None and "point_form" in case else READER_FORMS[(pi // 2 + case.get("pl", 0)) % len(READER_FORMS)]
         case["point_form"] = form
-        res, err = results_on(p, preload=preload, form=form)
+        # when the file ends inside a footer array: the header of the trace whose value is cut, and of its neighbour
+        cut = []
+        if fspec is not None and len(img) > fspec.footer_start and fspec.stride:
+            within = (len(img) - fspec.footer_start) % fspec.stride
+            if within < fspec.array_len:
+                g = within // 4
+                cut = [t for t in (g, g - 1) if t >= 0] if structured else []
+        res, err = results_on(p, preload=preload, form=form, extra_traces=cut)
         n_eval += 1
         if kind == "length":
             where = "header" if k < 8192 else "body"
@@ -393,6 +409,10 @@ SPECIAL = [
     {"route": "segy", "mode": "exhaustive", "stride": 2500, "pl": 1, "values": {"kind": "gauss", "vseed": 6}, "setting": [2, [64, 64, 4]],
      "src": {"geom": "regular", "fmt": 1, "ext": 1, "dt_us": 2000, "delay": -40, "values": {"kind": "gauss", "vseed": 6}, "text_seed": 4,
              "bin": {}, "ns": 9, "n_il": 5, "n_xl": 4, "il": [3, 2], "xl": [7, 1], "fields": {"21": {"kind": "vary", "seed": 4}}}},
+    # a data section of 17 MiB (68 x 256 x 512 at 16 bits), NumPy route, lengths on a 1 MiB grid: what a preload fetched in
+    # pieces makes of a file that ends inside the data section
+    {"route": "numpy", "mode": "strip", "stride": 10 ** 9, "pl": 1, "values": {"kind": "smooth", "vseed": 9}, "setting": [16, [4, 4, 128]],
+     "shape": [68, 256, 512], "coarse": True},
 ]
 
 
